@@ -124,10 +124,16 @@ def classify(c):
     return ks
 
 
-def _build(entries):
+def _fresh(t):
+    """a str equal to t but a distinct, non-interned object (as JSON / msgpack / database decoding produce)"""
+    return t.encode("ascii").decode("ascii")
+
+
+def _build(entries, fresh=False):
     from swh.model.model import Directory, DirectoryEntry
     return Directory(entries=tuple(
-        DirectoryEntry(name=bytes.fromhex(n), type=t, target=bytes.fromhex(tg), perms=p) for n, t, tg, p in entries))
+        DirectoryEntry(name=bytes.fromhex(n), type=_fresh(t) if fresh else t, target=bytes.fromhex(tg), perms=p)
+        for n, t, tg, p in entries))
 
 
 def impl(c):
@@ -143,6 +149,10 @@ def impl(c):
     except Exception as e:
         res["error"] = exc_class(e)
         return res
+    try:
+        res["id_fresh_strings"] = _build(c["entries"], fresh=True).id.hex()
+    except Exception as e:
+        res["id_fresh_strings"] = "error:" + exc_class(e)
     try:
         d2 = _build([c["entries"][i] for i in c["perm"]])
         res["id_perm"] = d2.id.hex()
@@ -207,6 +217,8 @@ def oracle(c, ires, mres):
     man = bytes.fromhex(ires["manifest"])
     if ires["id"] != hashlib.sha1(man).hexdigest():
         return "id is not the SHA-1 of the manifest"
+    if ires["id_fresh_strings"] != ires["id"]:
+        return "id depends on the identity (not the value) of the entry type strings: %s vs %s" % (ires["id"], ires["id_fresh_strings"])
     if ires["id_perm"] != ires["id"]:
         return "id depends on the order of the entries: %s vs %s" % (ires["id"], ires["id_perm"])
     if ires["manifest_from_dict_arg"] != ires["manifest"]:
